@@ -49,7 +49,8 @@ FORMATS = {
                           places=["low", "b32", "s32", "top"]),
     "vhdx": dict(unit=32 * MB, scales={"small": 64, "4g": 130, "2t": (1 << 16) + 3, "limit": 1 << 21},
                  places=["low", "b32", "s32", "top"]),
-    "vhd": dict(unit=2 * MB, scales={"small": 512, "4g": 2050, "limit": 1044480}, places=["low", "b32", "top"]),
+    "vhd": dict(unit=2 * MB, scales={"small": 512, "4g": 2050, "limit": 1044480},
+                places=["low", "b32", "top", "hdr-ffffffff", "hdr-4g", "hdr-6g", "hdr-top"]),
     "vdi": dict(unit=MB, scales={"small": 1024, "4g": 4100, "2t": (1 << 21) + 3}, places=["low", "b32", "s32", "top"]),
     "hds2": dict(unit=MB, scales={"small": 1024, "4g": 4100, "2t": (1 << 21) + 3}, places=["low", "b32", "s32", "top"]),
     "hds1": dict(unit=MB, scales={"small": 1024, "4g": 4100, "limit": (1 << 21) - 1}, places=["low", "b32", "top"]),
@@ -179,9 +180,13 @@ def _build(fmt, total, place, placed):
 
         states = [DATA if u in placed else HOLE for u in range(total)]
         slots = [placed.get(u) for u in range(total)]
-        base = {"low": None, "b32": (1 << 23) + 9, "top": (1 << 32) - (1 << 27)}[place]
+        base = {"low": None, "b32": (1 << 23) + 9, "top": (1 << 32) - (1 << 27)}.get(place)
         spb = unit // 512
-        img = B.build_dynamic(states, slots, spb, total * unit, total, base_sector=base)
+        # the dynamic header itself may sit anywhere the footer's 64-bit data offset can express
+        hdr_at = {"hdr-ffffffff": 0xFFFFFFFF, "hdr-4g": 1 << 32, "hdr-6g": (6 << 30) + 512, "hdr-top": (1 << 62) + 512}.get(place)
+        if hdr_at is not None and hdr_at < (1 << 40):
+            base = (hdr_at + 1024) // 512 + 3  # the blocks follow the header
+        img = B.build_dynamic(states, slots, spb, total * unit, total, base_sector=base, hdr_at=hdr_at)
         model = B.model_dynamic(states, spb, total * unit)
         return img, model, lambda fh: VHD(fh)
     if fmt == "vdi":
